@@ -24,6 +24,12 @@ class GitxnExpr(TxnExpr):
                     field, txnIndex
                 )
             )
+        if txnIndex < 0 or txnIndex >= MAX_GROUP_SIZE:
+            raise TealInputError(
+                "Invalid Gitxn index {}, should be in [0, {})".format(
+                    txnIndex, MAX_GROUP_SIZE
+                )
+            )
 
         self.txnIndex = txnIndex
 
@@ -54,6 +60,12 @@ class GitxnaExpr(TxnaExpr):
         if type(txnIndex) is not int:
             raise TealInputError(
                 f"Invalid txnIndex type:  Expected int, but received {txnIndex}."
+            )
+        if txnIndex < 0 or txnIndex >= MAX_GROUP_SIZE:
+            raise TealInputError(
+                "Invalid Gitxn index {}, should be in [0, {})".format(
+                    txnIndex, MAX_GROUP_SIZE
+                )
             )
 
         self.txnIndex = txnIndex
